@@ -300,6 +300,11 @@ impl ModuleRef {
     }
 
     pub(crate) fn at_sim_start(&self, stage: usize) -> Result<(), PanicError> {
+        // A module that panicked or shut down in an earlier stage stays inert.
+        if !self.ctx.active.load(SeqCst) {
+            return Ok(());
+        }
+
         let mut processing = self.processing.borrow_mut();
 
         processing.incoming_upstream(None);
